@@ -1,6 +1,7 @@
 """Drive the native engine (sanitizer build) with adversarial geometry: raw .fjm files through fjm_run.run and
 direct _fjcore.Memory call sequences.  Progress is written before each case so that a sanitizer abort can be
 attributed to the case that caused it.  argv: in.json out.json progress_file"""
+import gc
 import json
 import os
 import signal
@@ -76,7 +77,7 @@ def _alarm(signum, frame):
 def do_file_case(c, td):
     path = Path(td) / 'x.fjm'
     raw_fjm(path, c['w'], c['segs'], c['words'], c.get('version', 1))
-    for k in ('FLIPJUMP_NO_FLAT', 'FLIPJUMP_MEASURE_SPECULATION', 'FLIPJUMP_NO_NATIVE'):
+    for k in ('FLIPJUMP_NO_FLAT', 'FLIPJUMP_MEASURE_SPECULATION', 'FLIPJUMP_NO_NATIVE', 'FLIPJUMP_FLAT_MAX_WORDS'):
         os.environ.pop(k, None)
     if c.get('no_flat'):
         os.environ['FLIPJUMP_NO_FLAT'] = '1'
@@ -98,12 +99,86 @@ def do_file_case(c, td):
         signal.setitimer(signal.ITIMER_REAL, 0)
 
 
+MODES = {None: 0, 'paged': 1, 'hybrid': 2, 'flat': 3}
+
+
+def _observe(m):
+    """the sizes the C object exposes: [allocated_bytes, storage_mode code]"""
+    try:
+        return [int(m.allocated_bytes), MODES.get(m.storage_mode, 9)]
+    except BaseException:  # noqa
+        return None
+
+
+def _refs(objs):
+    return [sys.getrefcount(o) for o in objs]
+
+
+class _BadTruth:
+    def __bool__(self):
+        raise RuntimeError('no truth value')
+
+
+def _make_io(spec, data):
+    """read_bit / write_bit callables for a run: FixedIO, optionally misbehaving at the k-th call
+    spec = {'read': 'raise'|'nonbool'|'badtruth'|'eof', 'write': 'raise', 'at': k}"""
+    dev = FixedIO(data)
+    spec = spec or {}
+    at = spec.get('at', 0)
+    state = {'r': 0, 'w': 0}
+    base_r, base_w = dev.read_bit, dev.write_bit
+
+    def read_bit():
+        k = state['r']
+        state['r'] += 1
+        how = spec.get('read')
+        if how and k >= at:
+            if how == 'raise':
+                raise RuntimeError('device failure')
+            if how == 'eof':
+                raise IOReadOnEOF('eof')
+            if how == 'nonbool':
+                return 'a string'
+            if how == 'badtruth':
+                return _BadTruth()
+        return base_r()
+
+    def write_bit(b):
+        k = state['w']
+        state['w'] += 1
+        if spec.get('write') == 'raise' and k >= at:
+            raise RuntimeError('device failure')
+        return base_w(b)
+
+    return read_bit, write_bit
+
+
+def _values(v):
+    """a values list for set_words; strings of the form 'neg'/'big'/'str'/'none' stand for bad elements"""
+    bad = {'neg': -1, 'big': 1 << 64, 'huge': 1 << 200, 'str': 'x', 'none': None, 'float': 1.5}
+    return [bad[x] if isinstance(x, str) else x for x in v]
+
+
 def do_api_case(c):
-    """c['calls'] = list of [name, args...] on one Memory object"""
+    """c['calls'] = list of [name, args...] on one Memory object.  Besides the result of every call: the observable
+    sizes after it ('obs') and the reference-count deltas of the objects handed to run()/set_words() ('leaks')."""
     out = []
+    obs = []
+    leaks = []
     m = None
-    for call in c['calls']:
+    # the process environment the engine consults at the storage decision / run dispatch: explicit per case
+    env = c.get('env', {})
+    for k in ('FLIPJUMP_NO_FLAT', 'FLIPJUMP_MEASURE_SPECULATION', 'FLIPJUMP_NO_NATIVE', 'FLIPJUMP_FLAT_MAX_WORDS'):
+        os.environ.pop(k, None)
+    if env.get('no_flat'):
+        os.environ['FLIPJUMP_NO_FLAT'] = '1'
+    if env.get('measure'):
+        os.environ['FLIPJUMP_MEASURE_SPECULATION'] = '1'
+    if env.get('flat_max_env'):
+        os.environ['FLIPJUMP_FLAT_MAX_WORDS'] = str(env['flat_max_env'])
+    for ci, call in enumerate(c['calls']):
         name, args = call[0], call[1:]
+        watched, before = [], []
         try:
             if name == 'new':
                 m = NATIVE.Memory(*args[0], **args[1])
@@ -112,21 +187,42 @@ def do_api_case(c):
                 m.__init__(*args[0], **args[1])
                 out.append('ok')
             elif name == 'run':
-                dev = FixedIO(bytes.fromhex(args[0]))
+                kw = dict(args[1])
+                rb, wb = _make_io(kw.pop('io', None), bytes.fromhex(args[0]))
+                watched = [rb, wb, IOReadOnEOF]
+                before = _refs(watched)
                 signal.setitimer(signal.ITIMER_REAL, 2.0)
                 try:
-                    r = m.run(dev.read_bit, dev.write_bit, IOReadOnEOF, **args[1])
+                    r = m.run(rb, wb, IOReadOnEOF, **kw)
                 finally:
                     signal.setitimer(signal.ITIMER_REAL, 0)
                 out.append([r[0], r[1], r[2], list(r[3])[:8]])
+                del r
             elif name == 'get':
                 out.append(['attr', str(getattr(m, args[0]))[:80]])
+            elif name == 'set_words':
+                vals = _values(args[1])
+                watched = [vals]
+                before = _refs(watched)
+                r = m.set_words(args[0], vals)
+                out.append(r)
             else:
                 r = getattr(m, name)(*args)
                 out.append(r if r is None or isinstance(r, int) else str(r)[:40])
         except BaseException as e:  # noqa
             out.append('exc:' + type(e).__name__)
-    return {'results': out}
+        if watched:
+            after = _refs(watched)
+            if after != before:
+                gc.collect()
+                after = _refs(watched)
+            if after != before:
+                leaks.append({'call': ci, 'name': name, 'before': before, 'after': after, 'result': str(out[-1])[:60]})
+        obs.append(_observe(m) if m is not None else None)
+    res = {'results': out, 'obs': obs}
+    if leaks:
+        res['leaks'] = leaks
+    return res
 
 
 def main():
